@@ -206,6 +206,16 @@ pub fn connect_fd(fd: i32, ip: [u8; 4], port: u16) -> Result<TcpStream, String> 
     }
 }
 
+/// ask the kernel to acknowledge at once (not sticky: call after every read). Without it the agent's
+/// sockets (Nagle on) stall ~40 ms on every multi-segment message waiting for our delayed ACK.
+pub fn quickack(s: &TcpStream) {
+    use std::os::unix::io::AsRawFd;
+    let one: libc::c_int = 1;
+    unsafe {
+        libc::setsockopt(s.as_raw_fd(), libc::IPPROTO_TCP, libc::TCP_QUICKACK, &one as *const _ as *const libc::c_void, 4);
+    }
+}
+
 /// close with RST so that the local port is reusable at once
 pub fn close_abortive(s: TcpStream) {
     use std::os::unix::io::AsRawFd;
@@ -251,9 +261,11 @@ impl MsgReader {
         }
         let _ = s.set_read_timeout(Some((deadline - now).max(Duration::from_millis(1))));
         let mut tmp = [0u8; 65536];
+        quickack(s);
         match s.read(&mut tmp) {
             Ok(0) => Ok(0),
             Ok(n) => {
+                quickack(s);
                 self.buf.extend_from_slice(&tmp[..n]);
                 Ok(n)
             }
